@@ -169,18 +169,19 @@ class Unit:
             while stack:
                 x = stack.pop()
                 if isinstance(x, ast.stmt):
+                    if self.is_ignored_stmt(x):
+                        continue
                     if not (isinstance(x, ast.Expr) and isinstance(x.value, ast.Constant)):
                         want.add(x.lineno)
-                for c in ast.iter_child_nodes(x):
-                    if isinstance(c, (ast.FunctionDef, ast.AsyncFunctionDef, ast.ClassDef, ast.Lambda)) and c is not x:
-                        if isinstance(c, ast.stmt):
-                            want.add(c.lineno)
-                        if c.name if hasattr(c, 'name') else None in self.inlined_defs:
-                            stack.append(c)
-                        continue
-                    stack.append(c)
-            missing = sorted(l for l in want - ex.reached if l not in self.unreachable_ok_lines(fn))
-            res['unreached'] = missing
+                    if isinstance(x, (ast.FunctionDef, ast.AsyncFunctionDef, ast.ClassDef)):
+                        # body of a nested def/class: only counted when it is executed by inlining
+                        if x.name not in self.inlined_defs:
+                            continue
+                if isinstance(x, ast.Lambda):
+                    continue
+                stack.extend(ast.iter_child_nodes(x))
+            res['want_lines'] = sorted(want - self.unreachable_ok_lines(fn))
+            res['reached_lines'] = sorted(ex.reached)
         res['ignored'] = sorted(set(ex.ignored))
         return res
 
